@@ -1,7 +1,18 @@
 import CuqiVerif.Model.C14
+import CuqiVerif.Proofs.C14
 import CuqiVerif.Generated.C14Tables
 
+/-!
+# C14 — property theorems
+
+Part 1: the record keeping of the stateful interface, for **every** sampler class (`Spec`), every
+run, every `n`, `m`.  Part 2: checkpoint/resume and re-initialisation, under the read/write
+hypotheses that Part 4 discharges per class over the tables generated from the Python AST.
+Part 3: the stateless interface.  Part 5: the Gibbs samplers.
+-/
 namespace CuqiVerif.C14
+
+/-! ## 1. stateful interface: continuity and record keeping -/
 
 /-- the sampling loop composes: `n + m` iterations are `n` iterations followed by `m` -/
 theorem sampleLoop_add {D A : Type} (sp : Spec D A) (n m : Nat) (r : Run D A) :
@@ -13,5 +24,502 @@ theorem sampleLoop_add {D A : Type} (sp : Spec D A) (n m : Nat) (r : Run D A) :
     rw [this]
     simp only [sampleLoop]
     exact ih _
+
+/-- **Continuity** (`sample_append`): `sample(n+m)` and `sample(n); sample(m)` give the same
+    attributes, stored samples, acceptance records, callback log and remaining random stream, for
+    every sampler whose `_pre_sample` is idempotent along the run (`Inv` is established by
+    `_pre_sample`, preserved by `step`, and makes `_pre_sample` a no-op — NUTS' `_epsilon_bar ≠ "unset"`). -/
+theorem sample_append {D A : Type} (sp : Spec D A) (Inv : Obj → Prop)
+    (hpre : ∀ o, Inv (sp.preSample o))
+    (hstep : ∀ o ds, Inv o → Inv (sp.step o ds).1)
+    (hfix : ∀ o, Inv o → sp.preSample o = o)
+    (n m : Nat) (r : Run D A) :
+    sample sp (n + m) r = sample sp m (sample sp n r) := by
+  unfold sample
+  simp only []
+  rw [sampleLoop_add]
+  have hinit : (sampleLoop sp n { ensureInit sp r with obj := sp.preSample (ensureInit sp r).obj }).initialized = true := by
+    rw [sampleLoop_initialized]; exact ensureInit_initialized sp r
+  rw [ensureInit_of_initialized sp _ hinit]
+  have hinv : Inv (sampleLoop sp n { ensureInit sp r with obj := sp.preSample (ensureInit sp r).obj }).obj :=
+    sampleLoop_inv sp Inv hstep n _ (hpre _)
+  rw [hfix _ hinv]
+
+/-- **Exact length**: `n` more stored states and `n` more acceptance records. -/
+theorem length_exact {D A : Type} (sp : Spec D A) (n : Nat) (r : Run D A) :
+    (sampleLoop sp n r).samples.length = r.samples.length + n ∧
+    (sampleLoop sp n r).acc.length = r.acc.length + n := by
+  induction n generalizing r with
+  | zero => simp [sampleLoop]
+  | succ k ih =>
+    simp only [sampleLoop]
+    obtain ⟨h1, h2⟩ := ih (oneStep sp r)
+    rw [h1, h2]
+    simp [oneStep]
+    omega
+
+/-- **Faithful recording** (`order_consecutive` + `history_immutable`): the stored samples after the
+    loop are the old ones, untouched, followed by the points of the `n` consecutive transitions of
+    the sampler object, in order; likewise the acceptance records. -/
+theorem order_consecutive {D A : Type} (sp : Spec D A) (n : Nat) (r : Run D A) :
+    (sampleLoop sp n r).samples = r.samples ++ (transitions sp.step n r.obj r.stream).map Prod.fst ∧
+    (sampleLoop sp n r).acc = r.acc ++ (transitions sp.step n r.obj r.stream).map Prod.snd := by
+  induction n generalizing r with
+  | zero => simp [sampleLoop, transitions]
+  | succ k ih =>
+    simp only [sampleLoop, transitions]
+    obtain ⟨h1, h2⟩ := ih (oneStep sp r)
+    rw [h1, h2]
+    simp [oneStep]
+
+/-- **Earlier entries are never altered**: the history before the loop is a prefix of the history
+    after it. -/
+theorem history_immutable {D A : Type} (sp : Spec D A) (n : Nat) (r : Run D A) :
+    r.samples <+: (sampleLoop sp n r).samples ∧ r.events <+: (sampleLoop sp n r).events := by
+  induction n generalizing r with
+  | zero => simp [sampleLoop]
+  | succ k ih =>
+    simp only [sampleLoop]
+    obtain ⟨h1, h2⟩ := ih (oneStep sp r)
+    constructor
+    · exact List.IsPrefix.trans (by simp [oneStep]) h1
+    · exact List.IsPrefix.trans (by simp [oneStep]) h2
+
+/-- **Callback exactly once per transition, with that state and its index in the chain**: the new
+    callback events are the new stored samples paired with their positions in `_samples`. -/
+theorem callback_once {D A : Type} (sp : Spec D A) (n : Nat) (r : Run D A) :
+    (sampleLoop sp n r).events =
+      r.events ++ ((transitions sp.step n r.obj r.stream).map Prod.fst).zipIdx r.samples.length := by
+  induction n generalizing r with
+  | zero => simp [sampleLoop, transitions]
+  | succ k ih =>
+    simp only [sampleLoop, transitions]
+    rw [ih (oneStep sp r)]
+    simp [oneStep, List.zipIdx_cons]
+
+/-- Warm-up: exact length, one callback per transition with its index (same bookkeeping). -/
+theorem warmup_records {D A : Type} (sp : Spec D A) (ti : Nat) (k idx : Nat) (r : Run D A) :
+    (warmLoop sp ti k idx r).samples.length = r.samples.length + k ∧
+    (warmLoop sp ti k idx r).acc.length = r.acc.length + k ∧
+    r.samples <+: (warmLoop sp ti k idx r).samples ∧
+    ∃ new : List Val, new.length = k ∧ (warmLoop sp ti k idx r).samples = r.samples ++ new ∧
+      (warmLoop sp ti k idx r).events = r.events ++ new.zipIdx r.samples.length := by
+  induction k generalizing idx r with
+  | zero => simp [warmLoop]
+  | succ j ih =>
+    simp only [warmLoop]
+    obtain ⟨h1, h2, h3, new, hn, hs, he⟩ := ih (idx + 1) (warmStep sp ti idx r)
+    have hlen : (warmStep sp ti idx r).samples.length = r.samples.length + 1 := by simp [warmStep]
+    have hacc : (warmStep sp ti idx r).acc.length = r.acc.length + 1 := by simp [warmStep]
+    refine ⟨by rw [h1, hlen]; omega, by rw [h2, hacc]; omega, ?_, ?_⟩
+    · exact List.IsPrefix.trans (by simp [warmStep]) h3
+    · refine ⟨(warmStep sp ti idx r).samples.getLast?.getD Val.none :: new, by simp [hn], ?_, ?_⟩
+      · rw [hs]; simp [warmStep]
+      · rw [he, hlen]; simp [warmStep, List.zipIdx_cons]
+
+/-! ## 2. checkpoint / resume and re-initialisation -/
+
+/-- **Resume** (`resume_bisim`): let `step` read only the attributes `R` (its result on `W`, its
+    acceptance record and its use of the stream are functions of them) and write only `W`.  If
+    `R ⊆ S ∪ C` (`S` the state keys, containing `current_point`; `C` configuration attributes on
+    which a fresh sampler of the same configuration agrees), then a fresh sampler after
+    `set_state(get_state(orig))` makes, from the same stream, exactly the transitions `orig`
+    would make — for every number of steps, i.e. for every checkpoint position. -/
+theorem resume_bisim {D A : Type} (step : Obj → List D → Obj × A × List D) (R W S C : List String)
+    (hdep : ∀ o o' ds, AgreeOn R o o' → (step o ds).2 = (step o' ds).2 ∧ AgreeOn W (step o ds).1 (step o' ds).1)
+    (hframe : ∀ o ds k, k ∉ W → (step o ds).1.get k = o.get k)
+    (hcover : ∀ k, k ∈ R → k ∈ S ∨ k ∈ C)
+    (hpoint : "current_point" ∈ S)
+    (orig fresh : Obj) (hcfg : AgreeOn C fresh orig) :
+    ∃ o', setState S (getState S orig) fresh = some o' ∧
+      ∀ n ds, transitions step n o' ds = transitions step n orig ds := by
+  obtain ⟨o', hload, hS, hrest⟩ := setState_getState S orig fresh
+  refine ⟨o', hload, ?_⟩
+  -- invariant: agreement on S ∪ C
+  have key : ∀ n (a b : Obj), (∀ k, k ∈ S ∨ k ∈ C → a.get k = b.get k) → ∀ ds,
+      transitions step n a ds = transitions step n b ds := by
+    intro n
+    induction n with
+    | zero => intros; rfl
+    | succ j ih =>
+      intro a b hab ds
+      have hR : AgreeOn R a b := fun k hk => hab k (hcover k hk)
+      obtain ⟨h2, hW⟩ := hdep a b ds hR
+      have hnext : ∀ k, k ∈ S ∨ k ∈ C → (step a ds).1.get k = (step b ds).1.get k := by
+        intro k hk
+        by_cases hw : k ∈ W
+        · exact hW k hw
+        · rw [hframe a ds k hw, hframe b ds k hw]; exact hab k hk
+      simp only [transitions]
+      have hp : point (step a ds).1 = point (step b ds).1 := hnext _ (Or.inl hpoint)
+      have hacc : (step a ds).2.1 = (step b ds).2.1 := by rw [h2]
+      have hstream : (step a ds).2.2 = (step b ds).2.2 := by rw [h2]
+      rw [hp, hacc, hstream, ih _ _ hnext]
+  intro n ds
+  apply key
+  intro k hk
+  by_cases hs : k ∈ S
+  · exact hS k hs
+  · rcases hk with h | h
+    · exact absurd h hs
+    · rw [hrest k hs]; exact hcfg k h
+
+/-- The hypotheses of `resume_bisim` are satisfiable: the replay instance run by the driver. -/
+example : ∃ o', setState replaySpec.stateKeys (getState replaySpec.stateKeys ((Obj.empty.set "current_point" (.int 7)))) Obj.empty = some o' ∧
+    ∀ n ds, transitions replaySpec.step n o' ds = transitions replaySpec.step n (Obj.empty.set "current_point" (.int 7)) ds := by
+  apply resume_bisim replaySpec.step ["current_point"] ["current_point"] replaySpec.stateKeys []
+  · intro o o' ds hoo
+    have hcp := hoo "current_point" (by simp)
+    unfold replaySpec
+    match ds with
+    | [] => simp [AgreeOn, hcp]
+    | [_] => simp [AgreeOn, hcp]
+    | p :: a :: rest => simp [AgreeOn, get_set]
+  · intro o ds k hk
+    unfold replaySpec
+    have hk' : k ≠ "current_point" := by simpa using hk
+    match ds with
+    | [] => rfl
+    | [_] => rfl
+    | p :: a :: rest => simp [get_set, hk']
+  · intro k hk; left; simpa [replaySpec] using hk
+  · simp [replaySpec]
+  · intro k hk; simp at hk
+
+/-- **Why the cover hypothesis is needed** (witness for `RegularizedLinearRTO._stepsize`): a step
+    that reads an attribute which is neither a state key nor equal on the fresh sampler continues
+    differently after `set_state(get_state(·))`. -/
+theorem resume_counterexample :
+    let step : Obj → List Int → Obj × Int × List Int :=
+      fun o ds => (o.set "current_point" (.int (getInt (o.get "current_point") + getInt (o.get "_stepsize"))), 1, ds)
+    let orig : Obj := (Obj.empty.set "current_point" (.int 0)).set "_stepsize" (.int 2)
+    let fresh : Obj := (Obj.empty.set "current_point" (.int 5)).set "_stepsize" (.int 3)
+    ∃ o', setState ["current_point"] (getState ["current_point"] orig) fresh = some o' ∧
+      transitions step 1 o' [] ≠ transitions step 1 orig [] := by
+  refine ⟨_, rfl, ?_⟩
+  decide
+
+/-- **Re-initialisation** (`reinitialize_restores_init`): if `initialize` computes the state keys
+    and the initial acceptance record from configuration attributes `C` only, and no
+    configuration attribute is a state key (so that clearing the state keys does not touch the
+    configuration), then after *any* run `reinitialize` yields the state, empty history and flags
+    of a freshly initialised sampler of that configuration. -/
+theorem reinitialize_restores_init {D A : Type} (sp : Spec D A) (C : List String)
+    (hinit : ∀ o o', AgreeOn C o o' → AgreeOn sp.stateKeys (sp.init o) (sp.init o') ∧ sp.initAcc o = sp.initAcc o')
+    (hdisj : ∀ k, k ∈ C → k ∉ sp.stateKeys)
+    (r : Run D A) (cfg : Obj) (ds : List D) (h : AgreeOn C r.obj cfg) :
+    getState sp.stateKeys (reinitialize sp r).obj = getState sp.stateKeys (initializeRun sp (Run.fresh cfg ds)).obj ∧
+    (reinitialize sp r).samples = [] ∧
+    (reinitialize sp r).acc = (initializeRun sp (Run.fresh cfg ds)).acc ∧
+    (reinitialize sp r).initialized = true := by
+  have hc : AgreeOn C (r.obj.clear sp.stateKeys) cfg := by
+    intro k hk
+    rw [get_clear]
+    simp [hdisj k hk, h k hk]
+  obtain ⟨h1, h2⟩ := hinit _ _ hc
+  refine ⟨?_, rfl, ?_, rfl⟩
+  · simp only [reinitialize, initializeRun, Run.fresh, getState]
+    apply List.map_congr_left
+    intro k hk
+    rw [h1 k hk]
+  · simp only [reinitialize, initializeRun, Run.fresh]
+    exact h2
+
+/-- non-vacuity: the toy sampler class run by the driver satisfies the hypotheses -/
+example (r : Run Int Int) (cfg : Obj) (h : AgreeOn ["initial_point", "initial_scale"] r.obj cfg) :
+    (reinitialize toySpec r).samples = [] :=
+  (reinitialize_restores_init toySpec ["initial_point", "initial_scale"]
+    (by
+      intro o o' hoo
+      have h1 := hoo "initial_point" (by simp)
+      have h2 := hoo "initial_scale" (by simp)
+      refine ⟨?_, rfl⟩
+      intro k hk
+      have hk' : k = "current_point" ∨ k = "scale" ∨ k = "eps_bar" := by simpa [toySpec] using hk
+      rcases hk' with h | h | h <;> simp [toySpec, get_set, h1, h2, h])
+    (by intro k hk; simp [toySpec] at hk ⊢; rcases hk with h | h <;> simp [h])
+    r cfg [] h).2.1
+
+/-- **Witness for NUTS' `max_depth`**: when a constructor parameter is listed among the state keys
+    and `initialize` does not set it, `reinitialize` loses the constructed value. -/
+theorem reinitialize_counterexample :
+    let sp : Spec Int Int :=
+      { stateKeys := ["current_point", "max_depth"],
+        init := fun o => o.set "current_point" (o.get "initial_point"),
+        initAcc := fun _ => [1], step := fun o ds => (o, 1, ds), tune := fun o _ _ _ => o,
+        preSample := id, preWarmup := id }
+    let cfg : Obj := (Obj.empty.set "initial_point" (.int 0)).set "max_depth" (.int 3)
+    let r : Run Int Int := initializeRun sp (Run.fresh cfg [])
+    (reinitialize sp r).obj.get "max_depth" ≠ r.obj.get "max_depth" := by
+  decide
+
+/-! ## 3. stateless interface -/
+
+/-- the loop never changes the number of columns -/
+theorem legacyLoop_length {P : Type} (fl : LegacyFlags) (outs : List P) (s : Nat) (cols : List P) (ev : List (P × Nat)) :
+    (legacyLoop fl s outs (cols, ev)).1.length = cols.length := by
+  induction outs generalizing s cols ev with
+  | nil => rfl
+  | cons o rest ih =>
+    simp only [legacyLoop]
+    rw [ih]
+    split <;> simp
+
+/-- **Exact length** (stateless interface): whenever the run succeeds the returned chain has
+    exactly `N` columns — for every class (both flags), every `N`, `Nb`. -/
+theorem legacy_length {P : Type} (fl : LegacyFlags) (junk x0 : P) (outs : List P) (n nb : Nat)
+    (chain : List P) (ev : List (P × Nat)) (h : legacySample fl junk x0 outs n nb = some (chain, ev)) :
+    chain.length = n := by
+  unfold legacySample at h
+  split at h
+  · cases h
+  · split at h
+    · cases h
+    · rename_i h0 _
+      simp only [Option.some.injEq, Prod.mk.injEq] at h
+      rw [← h.1, List.length_drop, legacyLoop_length]
+      simp [legacyAlloc]
+      omega
+
+/-- **Callback exactly once per transition with (state, index)**: if the loop calls the callback,
+    the log is the produced states paired with the indices `s+1, s+2, …` in the stored chain. -/
+theorem legacyLoop_events {P : Type} (v : Bool) (outs : List P) (s : Nat) (cols : List P) (ev : List (P × Nat)) :
+    (legacyLoop ⟨v, true⟩ s outs (cols, ev)).2 = ev ++ outs.zipIdx (s + 1) := by
+  induction outs generalizing s cols ev with
+  | nil => simp [legacyLoop]
+  | cons o rest ih =>
+    simp only [legacyLoop]
+    rw [ih]
+    simp [List.zipIdx_cons]
+
+theorem legacy_callback_once {P : Type} (v : Bool) (junk x0 : P) (outs : List P) (n nb : Nat)
+    (chain : List P) (ev : List (P × Nat)) (h : legacySample ⟨v, true⟩ junk x0 outs n nb = some (chain, ev)) :
+    ev = outs.zipIdx 1 := by
+  unfold legacySample at h
+  split at h
+  · cases h
+  · split at h
+    · cases h
+    · simp only [Option.some.injEq, Prod.mk.injEq] at h
+      rw [← h.2, legacyLoop_events]
+      simp
+
+/-- a loop without the call never invokes the callback (the defect legacy `MH._sample_adapt` had) -/
+theorem legacy_no_callback {P : Type} (v : Bool) (outs : List P) (s : Nat) (cols : List P) (ev : List (P × Nat)) :
+    (legacyLoop ⟨v, false⟩ s outs (cols, ev)).2 = ev := by
+  induction outs generalizing s cols ev with
+  | nil => simp [legacyLoop]
+  | cons o rest ih => simp only [legacyLoop]; rw [ih]; simp
+
+/-- columns after the loop when `single_update` does not write through its argument -/
+theorem legacyLoop_cols {P : Type} (cb : Bool) (outs : List P) :
+    ∀ (s : Nat) (cols : List P) (ev : List (P × Nat)), s + outs.length < cols.length →
+      ∀ j, (legacyLoop ⟨false, cb⟩ s outs (cols, ev)).1[j]? =
+        if s < j ∧ j ≤ s + outs.length then outs[j - s - 1]? else cols[j]? := by
+  induction outs with
+  | nil => intro s cols ev _ j; simp [legacyLoop]; omega
+  | cons o rest ih =>
+    intro s cols ev hlen j
+    simp only [legacyLoop, Bool.false_eq_true, if_false]
+    have hlen' : s + 1 + rest.length < (cols.set (s + 1) o).length := by
+      simp only [List.length_set]; simp only [List.length_cons] at hlen; omega
+    rw [ih (s + 1) (cols.set (s + 1) o) _ hlen' j]
+    simp only [List.length_cons] at hlen ⊢
+    by_cases h1 : s + 1 < j ∧ j ≤ s + 1 + rest.length
+    · have h2 : s < j ∧ j ≤ s + (rest.length + 1) := by omega
+      rw [if_pos h1, if_pos h2]
+      have : j - s - 1 = (j - (s + 1) - 1) + 1 := by omega
+      rw [this, List.getElem?_cons_succ]
+    · rw [if_neg h1, List.getElem?_set]
+      by_cases h3 : s + 1 = j
+      · have h2 : s < j ∧ j ≤ s + (rest.length + 1) := by omega
+        have h4 : s + 1 < cols.length := by omega
+        rw [if_pos h3, if_pos h4, if_pos h2]
+        have : j - s - 1 = 0 := by omega
+        rw [this]; rfl
+      · have h2 : ¬ (s < j ∧ j ≤ s + (rest.length + 1)) := by omega
+        rw [if_neg h3, if_neg h2]
+
+/-- **Faithful stored chain** (`x0_first_legacy`, `order_consecutive`, `burnin_is_drop`,
+    entries never altered): when `single_update` does not write through the view it is handed,
+    the returned chain is exactly `drop Nb (x0 :: states produced by the transitions)`. -/
+theorem legacy_faithful {P : Type} (cb : Bool) (junk x0 : P) (outs : List P) (n nb : Nat)
+    (chain : List P) (ev : List (P × Nat)) (h : legacySample ⟨false, cb⟩ junk x0 outs n nb = some (chain, ev)) :
+    chain = (x0 :: outs).drop nb := by
+  unfold legacySample at h
+  split at h
+  · cases h
+  · split at h
+    · cases h
+    · rename_i h0 h1
+      simp only [Option.some.injEq, Prod.mk.injEq] at h
+      rw [← h.1]
+      congr 1
+      have hl : outs.length = n + nb - 1 := by simpa using h1
+      apply List.ext_getElem?
+      intro j
+      have hlen : 0 + outs.length < (legacyAlloc junk x0 (n + nb)).length := by
+        simp [legacyAlloc]; omega
+      rw [legacyLoop_cols cb outs 0 _ _ hlen j]
+      by_cases hj : 0 < j ∧ j ≤ 0 + outs.length
+      · rw [if_pos hj]
+        obtain ⟨k, rfl⟩ : ∃ k, j = k + 1 := ⟨j - 1, by omega⟩
+        simp
+      · rw [if_neg hj]
+        by_cases hz : j = 0
+        · subst hz; simp [legacyAlloc]
+        · have hbig : outs.length < j := by omega
+          have e1 : (legacyAlloc junk x0 (n + nb))[j]? = none := by
+            apply List.getElem?_eq_none; simp [legacyAlloc]; omega
+          have e2 : (x0 :: outs)[j]? = none := by
+            apply List.getElem?_eq_none; simp; omega
+          rw [e1, e2]
+
+/-- with no burn-in the stored chain begins with the initial point -/
+theorem legacy_x0_first {P : Type} (cb : Bool) (junk x0 : P) (outs : List P) (n : Nat)
+    (chain : List P) (ev : List (P × Nat)) (h : legacySample ⟨false, cb⟩ junk x0 outs n 0 = some (chain, ev)) :
+    chain.head? = some x0 := by
+  rw [legacy_faithful cb junk x0 outs n 0 chain ev h]; rfl
+
+example : legacySample ⟨false, true⟩ (0 : Int) 10 [11, 12, 13] 2 2 = some ([12, 13], [(11, 1), (12, 2), (13, 3)]) := by decide
+
+/-- **Witness for legacy `CWMH`**: a `single_update` that writes through the view shifts the stored
+    chain by one — the initial point is lost, the last state is duplicated, and the stored entries
+    differ from what the callback was given. -/
+theorem legacy_view_counterexample :
+    legacySample ⟨true, true⟩ (0 : Int) 10 [11, 12, 13] 4 0 = some ([11, 12, 13, 13], [(11, 1), (12, 2), (13, 3)]) ∧
+    legacySample ⟨false, true⟩ (0 : Int) 10 [11, 12, 13] 4 0 = some ([10, 11, 12, 13], [(11, 1), (12, 2), (13, 3)]) := by
+  decide
+
+/-! ## 4. the per-class facts, over the tables generated from the current source -/
+
+/-- every attribute `step` / `_pre_sample` reads before assigning it is a state key, or a
+    configuration attribute (written by the constructor or by `initialize`) that is not derived
+    from a random source and is never written by `step`, `tune`, `_pre_sample`, `_pre_warmup` -/
+def resumeCover (t : Gen.ClassTable) : Bool :=
+  (t.stepCarried ++ t.preSampleCarried).all fun k =>
+    t.stateKeys.contains k ||
+      ((t.ctorKeys ++ t.initKeys).contains k && !t.randomInitKeys.contains k &&
+        !(t.stepWrites ++ t.tuneWrites ++ t.preSampleWrites ++ t.preWarmupWrites).contains k)
+
+/-- classes for which the cover is known not to hold (KNOWN_FINDINGS: `_stepsize`) -/
+def resumeGaps : List String := ["RegularizedLinearRTO"]
+
+/-- **`keys_cover_*`**: the hypothesis `R ⊆ S ∪ C` of `resume_bisim`, for every sampler class of the
+    stateful interface in the current source except the listed gap. -/
+theorem keys_cover :
+    (Gen.classes.all fun t => resumeGaps.contains t.name || resumeCover t) = true := by decide
+
+/-- every state key is assigned by the constructor or by `initialize` (so `get_state` is total) -/
+theorem state_keys_initialised :
+    (Gen.classes.all fun t => t.stateKeys.all fun k => (t.ctorKeys ++ t.initKeys).contains k) = true := by decide
+
+/-- `current_point` is always a state key and is written by `step` -/
+theorem point_is_state :
+    (Gen.classes.all fun t => t.stateKeys.contains "current_point" && t.stepWrites.contains "current_point") = true := by decide
+
+/-- hypothesis `hdisj`/`hinit` of `reinitialize_restores_init`: `initialize` re-assigns every state
+    key — for every class except NUTS (`max_depth`, KNOWN_FINDINGS) -/
+theorem reinit_cover :
+    (Gen.classes.all fun t => t.name == "NUTS" || t.stateKeys.all fun k => t.initKeys.contains k) = true := by decide
+
+/-- `step` only rebinds: it never mutates in place the array held in `current_point`, nor touches
+    `_samples` (hypothesis of `history_immutable` for the Python object graph) -/
+theorem no_inplace_mutation :
+    (Gen.classes.all fun t => !t.stepMutates.contains "current_point" && !t.stepMutates.contains "_samples"
+        && !t.stepAppends.contains "_samples" && !t.stepWrites.contains "_samples") = true := by decide
+
+/-- the loops of `Sampler.sample` / `Sampler.warmup` contain exactly one `step`, one append to
+    `_samples`, one to `_acc` and one `_call_callback(self.current_point, len(self._samples)-1)` -/
+theorem base_loops :
+    Gen.base_sample = ⟨1, 1, 1, 1, true⟩ ∧ Gen.base_warmup = ⟨1, 1, 1, 1, true⟩ := ⟨rfl, rfl⟩
+
+/-- stateless interface: every `_sample` and `_sample_adapt` loop calls the callback exactly once -/
+theorem legacy_callbacks :
+    (Gen.legacy.all fun t => t.samplePresent && t.adaptPresent && t.sampleCallbacks == 1 && t.adaptCallbacks == 1) = true := by decide
+
+/-- stateless interface: no class except `CWMH` (KNOWN_FINDINGS) writes through the view of the
+    previous column — the hypothesis `viewMutation = false` of `legacy_faithful` -/
+theorem legacy_view_safe :
+    (Gen.legacy.all fun t => t.name == "CWMH" ||
+        !(t.updateStoresThroughArg && (t.samplePassesView || t.adaptPassesView))) = true := by decide
+
+/-! ## 5. Gibbs samplers -/
+
+/-- **Continuity of `HybridGibbs.sample`**: `n + m` sweeps are `n` sweeps followed by `m`, on the
+    state, the stored chain and the stream. -/
+theorem gibbs_sample_append {S P D : Type} (sweep : S → List D → S × P × List D) (n m : Nat)
+    (st : S × List P × List D) :
+    iterStore sweep (n + m) st = iterStore sweep m (iterStore sweep n st) := by
+  induction n generalizing st with
+  | zero => simp [iterStore]
+  | succ k ih =>
+    obtain ⟨s, rec, ds⟩ := st
+    have : k + 1 + m = (k + m) + 1 := by omega
+    rw [this]
+    simp only [iterStore]
+    exact ih _
+
+/-- `HybridGibbs`: exact length, earlier entries untouched -/
+theorem gibbs_records {S P D : Type} (sweep : S → List D → S × P × List D) (n : Nat)
+    (st : S × List P × List D) :
+    (iterStore sweep n st).2.1.length = st.2.1.length + n ∧ st.2.1 <+: (iterStore sweep n st).2.1 := by
+  induction n generalizing st with
+  | zero => simp [iterStore]
+  | succ k ih =>
+    obtain ⟨s, rec, ds⟩ := st
+    simp only [iterStore]
+    obtain ⟨h1, h2⟩ := ih ((sweep s ds).1, rec ++ [(sweep s ds).2.1], (sweep s ds).2.2)
+    constructor
+    · rw [h1]; simp; omega
+    · exact List.IsPrefix.trans (by simp) h2
+
+/-- legacy `Gibbs`: a run of `n ≥ 1` sweeps ends with its current state stored last, and
+    `n + m` sweeps are `n` sweeps followed by `m` sweeps started from that stored state -/
+theorem gibbsLegacyLoop_add {P D : Type} (sweep : P → List D → P × List D) (n : Nat) :
+    ∀ (c : P) (rec : List P) (ds : List D), ∃ c',
+      (gibbsLegacyLoop sweep (n + 1) c (rec, ds)).1.getLast? = some c' ∧
+      ∀ m, gibbsLegacyLoop sweep (n + 1 + m) c (rec, ds) = gibbsLegacyLoop sweep m c' (gibbsLegacyLoop sweep (n + 1) c (rec, ds)) := by
+  induction n with
+  | zero =>
+    intro c rec ds
+    refine ⟨(sweep c ds).1, by simp [gibbsLegacyLoop], ?_⟩
+    intro m
+    have : 0 + 1 + m = m + 1 := by omega
+    rw [this]
+    simp [gibbsLegacyLoop]
+  | succ k ih =>
+    intro c rec ds
+    obtain ⟨c', h1, h2⟩ := ih (sweep c ds).1 (rec ++ [(sweep c ds).1]) (sweep c ds).2
+    refine ⟨c', ?_, ?_⟩
+    · simpa [gibbsLegacyLoop] using h1
+    · intro m
+      have e : k + 1 + 1 + m = (k + 1 + m) + 1 := by omega
+      rw [e]
+      simp only [gibbsLegacyLoop] at h2 ⊢
+      exact h2 m
+
+/-- **Continuity of legacy `Gibbs.sample`** for every split position `n ≥ 1`. -/
+theorem gibbsLegacy_append {P D : Type} (sweep : P → List D → P × List D) (init : P) (n m : Nat)
+    (st : Bool × List P × List D) :
+    gibbsLegacySample sweep init (n + 1 + m) st =
+      (gibbsLegacySample sweep init (n + 1) st).bind (gibbsLegacySample sweep init m) := by
+  obtain ⟨alloc, rec, ds⟩ := st
+  unfold gibbsLegacySample
+  simp only []
+  cases hcur : (if alloc = true then rec.getLast? else some init) with
+  | none => simp
+  | some c =>
+    obtain ⟨c', h1, h2⟩ := gibbsLegacyLoop_add sweep n c rec ds
+    simp only [Option.bind_some, if_true, h1]
+    rw [h2 m]
+
+/-- **Witness for split position 0** of legacy `Gibbs`: `sample(0); sample(2)` raises (`none`),
+    `sample(2)` succeeds. -/
+theorem gibbsLegacy_split0_counterexample :
+    let sweep : Int → List Int → Int × List Int := fun c ds => (c + 1, ds)
+    (gibbsLegacySample sweep 0 0 (false, [], [])).bind (gibbsLegacySample sweep 0 2) = none ∧
+    gibbsLegacySample sweep 0 2 (false, [], []) = some (true, [1, 2], []) := by
+  decide
 
 end CuqiVerif.C14
